@@ -1,6 +1,9 @@
 package main
 
-import "time"
+import (
+	"os"
+	"time"
+)
 
 var c03Probes = bs(" ", "\t", "\r", "\n", "\r\n ", "\r\n\t", "\n ", "1", "\"", ",", ";", ":", "=", "a", "\r\n\r\n", "<", ">")
 
@@ -16,6 +19,13 @@ func checkC03(r *Run) {
 		"for a message without Content-Length under neither skip-body nor CLen-required the body extent (Body, RawMsg, Buf, returned offset) is exempt",
 		"extensions: every trie child (transitively every extension inside the trie) plus the probe continuations " + "SP HT CR LF CRLF-SP CRLF-HT LF-SP digit quote , ; : = token CRLFCRLF < > below every definitive node"}
 	or := Oracles{Extension: true}
+	if os.Getenv("VERIF_C03_ONLY_BIG") != "" { // development aid: only the last part
+		mor := or
+		mor.ExemptCase = msgNoCLenExempt
+		mor.ExemptObs = msgBodyLines
+		c03Big(r, mor)
+		return
+	}
 	probeAll = c03Probes
 	defer func() { probeAll = nil }()
 	runAllDrivers(r, or)
